@@ -160,7 +160,9 @@ inline EvalOut evaluate( const EvalCfg& cfg)
       try
       {
          auto &  grp = pa::Groups::instance( os, es, cfg.flags | Handler::hfUsageCont);
-         auto    h1 = grp.getArgHandler( "first", cfg.flags & (Handler::hfHelpShort | Handler::hfHelpLong));
+         // (flags that make the handler create standard arguments of its own)
+         auto    h1 = grp.getArgHandler( "first", cfg.flags & (Handler::hfHelpShort | Handler::hfHelpLong | Handler::hfArgHidden
+                                                                | Handler::hfArgDeprecated | Handler::hfUsageShort | Handler::hfUsageLong));
          auto    h2 = grp.getArgHandler( "second");
          if (cfg.recipe != nullptr) build( *h1, nullptr, d, *cfg.recipe, b);
          build( *h2, nullptr, d2, *cfg.recipe2, b);
